@@ -328,14 +328,20 @@ func runHarness(cfg *Config, prog *ssa.Program, pkg *ssa.Package, name string, v
 	}
 	sh := &Shared{prog: prog, pool: pool, harness: name, tier: cfg.tier, seed: cfg.seed, trace: cfg.trace, vpModel: vpModel,
 		globals: map[*ssa.Global]Val{}, lazyMemo: map[string]StoreEntry{}, globalHeap: map[int]Val{}, strIntern: map[string]int{}, seen: map[string]bool{},
-		unwind: 24, sliceL: 2, maxSteps: 20000000, maxPaths: cfg.maxPaths, reachWanted: map[string]int{}, reachSat: map[string]bool{},
+		unwind: 24, sliceL: 2, maxSteps: 20000000, maxPaths: cfg.maxPaths, reachWanted: map[string]int{}, reachSat: map[string]bool{}, reachLater: map[string][]*State{}, divMemo: map[string][2]string{},
 		boundsUsed: map[string]int{}, optionsUsed: map[string]bool{}, notes: map[string]bool{}, stubs: map[string]bool{}, stubMono: map[string][2]int{}}
 	sh.decls = append(sh.decls, prelude...)
 	sh.noRegion = os.Getenv("VP_NO_REGION") != ""
 	pool.onDone = func(q *FinalQuery) {
-		if q.Kind == "reach" && q.Result == "sat" {
+		if q.Kind == "reach" {
 			sh.mu.Lock()
-			sh.reachSat[q.Label] = true
+			if q.Result == "sat" {
+				sh.reachSat[q.Label] = true
+			} else if sh.reachWanted[q.Label] > 0 {
+				// a witness attempt that came back unsat/unknown frees its slot: later paths keep trying until one is sat
+				// (paths kept by the def-free feasibility check are often infeasible once the definitions are added)
+				sh.reachWanted[q.Label]--
+			}
 			sh.mu.Unlock()
 		}
 	}
@@ -387,6 +393,33 @@ func runHarness(cfg *Config, prog *ssa.Program, pkg *ssa.Package, name string, v
 	collectReachLabels(fn, declared, map[*ssa.Function]bool{})
 	counts := e.run(fn, base, workers, nil)
 	done := pool.wait()
+	// vacuity witnesses: labels whose first attempts were all unsat get the remaining reaching paths tried, 16 at a time
+	for {
+		more := false
+		sh.mu.Lock()
+		for l, later := range sh.reachLater {
+			if sh.reachSat[l] || len(later) == 0 {
+				continue
+			}
+			n := 16
+			if n > len(later) {
+				n = len(later)
+			}
+			batch := later[:n]
+			sh.reachLater[l] = later[n:]
+			sh.mu.Unlock()
+			for _, st := range batch {
+				e.submitFinal(st, "reach", l, st.PC, nil)
+			}
+			sh.mu.Lock()
+			more = true
+		}
+		sh.mu.Unlock()
+		if !more {
+			break
+		}
+		done = pool.wait()
+	}
 	res.Paths = counts
 	res.FinalQ = len(done)
 	res.SolverS = float64(pool.solverT) / 1e9
@@ -686,8 +719,21 @@ func report(cfg *Config, results []*HarnessResult, files, pats []string, loadS, 
 		}
 		sort.Strings(rl)
 		reach := map[string]interface{}{}
+		skippedHere := false
+		for _, o := range r.Options {
+			if o == "thorough-only" && tier != "thorough" {
+				skippedHere = true // the harness declared itself thorough-tier only and returned at once
+			}
+		}
+		if skippedHere {
+			hs["skipped"] = "thorough tier only"
+		}
 		for _, l := range rl {
 			reach[l] = r.Reach[l]
+			if skippedHere && r.Reach[l] == "never-reached" {
+				reach[l] = "not-run (thorough tier only)"
+				continue
+			}
 			if r.Reach[l] != "sat" {
 				inconclusive = append(inconclusive, fmt.Sprintf("%s: reachability witness %q is %s (vacuity guard)", r.Name, l, r.Reach[l]))
 			}
